@@ -174,3 +174,56 @@ def assigned_attr_paths(fn):
             for e in (t.elts if isinstance(t, (ast.Tuple, ast.List)) else [t]):
                 out.append((ast.unparse(e), n))
     return out
+
+
+def single_defs(fn):
+    """{local name: value expression} for the locals of `fn` that are bound
+    exactly once, by a plain `name = <expr>` (no augmented assignment, loop
+    target, unpacking, with/except binding, parameter)."""
+    cnt, val = {}, {}
+    for a in ast.walk(fn.args):
+        if isinstance(a, ast.arg):
+            cnt[a.arg] = 2
+    for n in walk_local(fn):
+        if isinstance(n, ast.Assign) and len(n.targets) == 1 and isinstance(
+                n.targets[0], ast.Name):
+            t = n.targets[0].id
+            cnt[t] = cnt.get(t, 0) + 1
+            val[t] = n.value
+            continue
+        for x in ast.walk(n) if isinstance(n, (
+                ast.Assign, ast.AugAssign, ast.AnnAssign, ast.For, ast.With,
+                ast.Delete, ast.Import, ast.ImportFrom)) else ():
+            if isinstance(x, ast.Name) and isinstance(
+                    x.ctx, (ast.Store, ast.Del)):
+                cnt[x.id] = cnt.get(x.id, 0) + 2
+        if isinstance(n, ast.ExceptHandler) and n.name:
+            cnt[n.name] = 2
+        if isinstance(n, ast.NamedExpr):
+            cnt[n.target.id] = 2
+        if isinstance(n, ast.comprehension):
+            for x in ast.walk(n.target):
+                if isinstance(x, ast.Name):
+                    cnt[x.id] = 2
+    return {t: v for t, v in val.items() if cnt.get(t) == 1}
+
+
+def value_of(expr, fn, depth=8):
+    """Copy of `expr` in which every local that is bound exactly once in
+    `fn` is replaced (recursively) by the expression it stands for: the value
+    of an argument independent of how many temporaries the code uses."""
+    import copy
+    defs = getattr(fn, '_single_defs', None)
+    if defs is None:
+        defs = fn._single_defs = single_defs(fn)
+
+    class V(ast.NodeTransformer):
+        def __init__(self, d):
+            self.d = d
+
+        def visit_Name(self, n):
+            if isinstance(n.ctx, ast.Load) and n.id in defs and self.d > 0:
+                e = copy.deepcopy(defs[n.id])
+                return ast.copy_location(V(self.d - 1).visit(e), n)
+            return n
+    return V(depth).visit(copy.deepcopy(expr))
